@@ -65,13 +65,25 @@ def fmt(p: Poly) -> str:
 class PathEval:
     """enumerates (path condition, returned polynomial) pairs of a loop-free function"""
 
-    def __init__(self, fnode: ast.FunctionDef, assume: Dict[str, bool], opaque_calls=True):
+    def __init__(self, fnode: ast.FunctionDef, assume: Dict[str, bool], opaque_calls=True, resolver=None, depth=0):
         self.fnode = fnode
-        self.assume = assume  # normalised condition text -> truth value (branches not explored)
+        # normalised condition text -> truth value (branches not explored); keys are canonicalised like the tests
+        self.assume = {}
+        for k, v in assume.items():
+            try:
+                t, pol = self.canon(ast.parse(k, mode='eval').body)
+                self.assume[t] = v if pol else (not v)
+            except SyntaxError:
+                self.assume[k] = v
+        self.resolver = resolver  # name -> ast.FunctionDef of a helper defined next to this function (or None)
+        self.depth = depth
+        self.arg_polys = None
         self.results: List[Tuple[Tuple[Tuple[str, bool], ...], Poly]] = []
 
     def run(self):
         env = {a.arg: atom(a.arg) for a in self.fnode.args.args + self.fnode.args.kwonlyargs}
+        if self.arg_polys:
+            env.update(self.arg_polys)
         self._block(list(self.fnode.body), env, ())
         return self.results
 
@@ -149,6 +161,16 @@ class PathEval:
                 if isinstance(test.ops[0], (ast.IsNot, ast.NotEq)):
                     test, pol = test.left, (not pol if v else pol)
                     continue
+            # `x is not None` / `x != None`  ==  not (`x is None`)
+            if isinstance(test, ast.Compare) and len(test.ops) == 1 and isinstance(test.comparators[0], ast.Constant) \
+                    and test.comparators[0].value is None and isinstance(test.ops[0], (ast.IsNot, ast.NotEq)):
+                test = ast.Compare(left=test.left, ops=[ast.Is()], comparators=[test.comparators[0]])
+                pol = not pol
+                continue
+            if isinstance(test, ast.Compare) and len(test.ops) == 1 and isinstance(test.comparators[0], ast.Constant) \
+                    and test.comparators[0].value is None and isinstance(test.ops[0], ast.Eq):
+                test = ast.Compare(left=test.left, ops=[ast.Is()], comparators=[test.comparators[0]])
+                continue
             break
         return norm_stmt(test), pol
 
@@ -201,11 +223,42 @@ class PathEval:
                 return self._expr(e.orelse, env, cond)
             return self._expr(e.body, env, cond + ((t, pol),)) + self._expr(e.orelse, env, cond + ((t, not pol),))
         if isinstance(e, ast.Subscript) and isinstance(e.value, ast.Name):
+            if e.value.id in env:
+                # a local that stands for a table (`t = A if flag else B; t[k]`): the table it is bound to on this path
+                p_ = env[e.value.id]
+                if len(p_) == 1 and list(p_.values())[0] == 1 and len(list(p_)[0]) == 1 and list(p_)[0][0][1] == 1:
+                    return [(cond, atom(f'{list(p_)[0][0][0]}[{norm_stmt(e.slice)}]'))]
             return [(cond, atom(f'{e.value.id}[{norm_stmt(e.slice)}]'))]
         if isinstance(e, ast.Call):
             fn = norm_stmt(e.func)
             if fn == 'round' and e.args:
                 return self._expr(e.args[0], env, cond)  # rounding is not part of the affine shape
+            helper = self.resolver(fn) if (self.resolver is not None and isinstance(e.func, ast.Name)) else None
+            if helper is not None and self.depth < 3 and not any(isinstance(a, ast.Starred) for a in e.args):
+                # a private helper defined next to the function: its paths are evaluated with the arguments bound
+                params = [a.arg for a in helper.args.args]
+                binds = [(cond, {})]
+                for i, a in enumerate(e.args):
+                    if i < len(params):
+                        binds = [(c2, dict(b, **{params[i]: v})) for c1, b in binds for c2, v in self._expr(a, env, c1)]
+                for kw in e.keywords:
+                    if kw.arg in params:
+                        binds = [(c2, dict(b, **{kw.arg: v})) for c1, b in binds for c2, v in self._expr(kw.value, env, c1)]
+                out = []
+                defaults = dict(zip(params[len(params) - len(helper.args.defaults):], helper.args.defaults))
+                for c1, b in binds:
+                    sub = PathEval(helper, {}, resolver=self.resolver, depth=self.depth + 1)
+                    sub.assume = dict(self.assume)
+                    for pn, dv in defaults.items():
+                        if pn not in b and isinstance(dv, ast.Constant) and isinstance(dv.value, (int, float)) and \
+                                not isinstance(dv.value, bool):
+                            b[pn] = const(Fraction(str(dv.value)))
+                    sub.arg_polys = b
+                    sub.results = []
+                    sub._block(list(helper.body), dict({p_: atom(p_) for p_ in params}, **b), c1)
+                    out += sub.results
+                if out:
+                    return out
             args = []
             for a in e.args:
                 args.append(norm_stmt(a))
